@@ -215,7 +215,8 @@ def run(ctx: core.Ctx) -> core.Outcome:
             if e["e"] == "state":
                 states[e["new"]] = states.get(e["new"], 0) + 1
     cov = dict(states=ok.distinct, transitions=ok.generated, design_spec="Runner", as_coded_design_violates=coded.violated or "nothing",
-               executions=len(traces), messages=made, send_attempts=att, failed_attempts=failed, state_changes=states, **stats)
+               traces_validated_against_impl=len(traces), executions=len(traces), messages=made, send_attempts=att, failed_attempts=failed, state_changes=states, **stats,
+               samples=[{"script": traces[1]["script"][:12]}, {"script": traces[-1]["script"][-8:]}])
     return core.Outcome(level="model_checking", coverage=cov, violations=viols, assumptions=[
         "virtual-time asyncio loop; the dispatcher is the real class with connect / send scripted (sequence numbering is the real code)",
         "the message builder hands out numbered stand-in messages; engine events (run start / data / stop) come from the script",
